@@ -2,13 +2,15 @@ module verifharness
 
 go 1.20
 
-require github.com/multiversx/mx-chain-storage-go v0.0.0
+require (
+	github.com/multiversx/mx-chain-storage-go v0.0.0
+	github.com/syndtr/goleveldb v1.0.1-0.20220721030215-126854af5e6d
+)
 
 require (
 	github.com/golang/snappy v0.0.4 // indirect
 	github.com/hashicorp/golang-lru v0.6.0 // indirect
 	github.com/multiversx/concurrent-map v0.1.4 // indirect
-	github.com/syndtr/goleveldb v1.0.1-0.20220721030215-126854af5e6d // indirect
 )
 
 require (
